@@ -133,6 +133,41 @@ Theorem C07_history_intact : forall H w h o ob, Inv H w -> ticks H w h ->
 Proof. exact history_intact. Qed.
 Print Assumptions C07_history_intact.
 
+(* the tree-level check  dvc_data.hashfile.check(odb, tree)  = odb.check of every entry id and of the
+   tree's own .dir id in turn (os, in any order): it never passes over a tampered object; it deletes
+   it when what is checked before it is intact; on intact objects it succeeds and keeps them intact *)
+Theorem C07_check_tree_rejects : forall H o ob os w, Tampered H w o ob -> In o os ->
+  fst (check_seq H w os) <> 0.
+Proof. exact check_seq_rejects. Qed.
+Print Assumptions C07_check_tree_rejects.
+
+Theorem C07_check_tree_deletes : forall H o ob os1 os2 w, Tampered H w o ob -> ~ In o os1 ->
+  (forall o', In o' os1 -> exists ob', Intact H w o' ob') ->
+  fst (check_seq H w (os1 ++ o :: os2)) = 3 /\
+  lookup o (w_objs (snd (check_seq H w (os1 ++ o :: os2)))) = None.
+Proof. exact check_seq_deletes. Qed.
+Print Assumptions C07_check_tree_deletes.
+
+Theorem C07_check_tree_intact : forall H os w, (forall o, In o os -> exists ob, Intact H w o ob) ->
+  fst (check_seq H w os) = 0 /\
+  forall o, In o os -> exists ob, Intact H (snd (check_seq H w os)) o ob.
+Proof. exact check_seq_intact. Qed.
+Print Assumptions C07_check_tree_intact.
+
+(* transfer(staging, odb, ids, verify=True, hardlink=any): whatever the sources contain and however the
+   object arrives (a copy with a fresh token, a hard link with the source's token), no new id keeps
+   an object that does not hash to its name - hypotheses as for C07_verify_add, in the world the
+   destination's existence query leaves *)
+Theorem C07_verify_transfer : forall H w items o b t,
+  let r := oids_exist H w (map it_oid items) in
+  let new := xfer_new (fst r) items in
+  NoDup (map it_oid new) -> In (o, b, t) new ->
+  honest H (snd r) o -> trusted_ok H (snd r) o -> fresh (snd r) o t ->
+  (w_cls (snd r) = Local -> S_IMODE (w_fmode (snd r)) <> PROTECTED) ->
+  forall ob', lookup o (w_objs (snd (xfer H w true items))) = Some ob' -> named_ok H (w_alg (snd r)) o ob'.
+Proof. exact verify_xfer. Qed.
+Print Assumptions C07_verify_transfer.
+
 (* the read_only option of a handle is ignored by check / oids_exist / checkout (one model serves
    every handle: all theorems above hold through a read-only handle); add through such a handle
    is refused (ObjectDBPermissionError, code 1), creates no object and harms no intact one *)
@@ -172,9 +207,11 @@ Print Assumptions C07_no_serve_under_delete_fault.
 Theorem C07_no_valid_under_delete_fault : forall H fw o ob,
   f_abort fw = false -> Tampered H (f_w fw) o ob ->
   fst (fcheck H fw o) <> 0 /\
-  (w_cls (f_w fw) = Local -> forall os, ~ In o (fst (foids_exist H fw os))).
+  (w_cls (f_w fw) = Local -> forall os, ~ In o (fst (foids_exist H fw os))) /\
+  (forall os, In o os -> fst (fcheck_seq H fw os) <> 0).
 Proof.
   intros H fw o ob A T. split. now apply (fault_check_rejects H fw o ob).
-  intros C os. now apply (fault_exists_rejects H fw o ob).
+  split. intros C os. now apply (fault_exists_rejects H fw o ob).
+  intros os I. now apply (fault_check_seq_rejects H o ob os fw).
 Qed.
 Print Assumptions C07_no_valid_under_delete_fault.
